@@ -471,6 +471,12 @@ func genC08(tier string) []Scenario {
 			execDur: time.Second, fast: []int{0}, stagger: true}
 		out = append(out, sc.scenario())
 	}
+	// a first run with FEWER items than the limit, then runs with more: the limit of the later runs
+	// is usable in full (mutually dependent items), whatever the node kept from the small run
+	for _, sizes := range [][]int{{1, 3}, {2, 3}} {
+		sc := batchScn{name: fmt.Sprintf("limit-after-smaller-runs items=%v c=3", sizes), n: sizes[0], nByRun: sizes, c: 3, budget: 1, shape: shResults, execMenu: okMenu, postMenu: postX, barrier: []int{0, 1, 2}, bound: 0, chkLimit: true, runs: len(sizes)}
+		out = append(out, sc.scenario())
+	}
 	// slow executions (1 s of virtual time each) with more items than workers + queue: the
 	// submitter stays blocked on a full queue while time passes
 	for _, c := range []int{1, 2} {
@@ -810,6 +816,10 @@ func genC11(tier string) []Scenario {
 				}
 			}
 		}
+	}
+	// a NEGATIVE wait is "no wait": the cancellation still ends the retries
+	for _, c := range []int{0, 2} {
+		add(batchScn{name: fmt.Sprintf("cancel n=2 c=%d budget=3 wait=-1s inside-exec(lazy)", c), n: 2, c: c, budget: 3, wait: -time.Second, negWait: true, yield: c > 0, execMenu: okOrErrMenu, bound: 0, cancel: cancelSpec{kind: 1, lazy: true}})
 	}
 	// a recovering fallback must not turn never-executed items into successes
 	for _, c := range []int{0, 2} {
